@@ -12,6 +12,9 @@ import (
 const (
 	idOrSubMatchLen = 2
 	endRPCSplitLen  = 2
+
+	// how our own (echoed) hello ends on the wire, see v1Dot0Caps and v1Dot1Caps.
+	clientHelloEnd = "</hello>" + v1Dot0Delim
 )
 
 var v1Dot1ChunkHeader = regexp.MustCompile(`\n#\d+\n`) //nolint:gochecknoglobals
@@ -75,11 +78,13 @@ func (d *Driver) read() {
 				}
 
 				b = []byte(ss[1])
-			} else if bytes.Contains(b, []byte("</hello>")) && patterns.v1Dot0Delim.Match(b) {
+			} else if i := bytes.Index(b, []byte(clientHelloEnd)); i >= 0 {
 				// the echo of our own hello (the server's hello was consumed while opening): drop it
-				// up to its delimiter, what follows it may be the beginning of a request's echo,
-				// message-id included, and must not be filed as a reply.
-				b = []byte(patterns.v1Dot0Delim.Split(string(b), endRPCSplitLen)[1])
+				// up to and including its delimiter, what follows it may be the beginning of a
+				// request's echo, message-id included, and must not be filed as a reply. only the
+				// hello ends in "</hello>]]>]]>": a reply that merely contains a <hello> element
+				// in its data is not affected.
+				b = b[i+len(clientHelloEnd):]
 			} else if d.Channel.PromptPattern.Match(b) {
 				var messageID int
 
